@@ -69,6 +69,9 @@ type caseIn struct {
 	pfDen    int64
 	stop     int // -1: run to completion, else: at most this many consumer calls
 	script   []reply
+	bind     bool          // the query is made with Session.Bind (values from a binding callback) instead of Session.Query
+	retries  int           // > 0: a retry policy that retries a failed fetch on the same host up to this many times per page
+	eff      []reply       // script as the paging logic sees it: a failed fetch that is retried = "the same request again"
 	delay    time.Duration // the node answers this much later (the prefetch is still in flight when the consumer catches up)
 	ownSess  bool          // the script closes a connection: the case gets a session of its own
 }
@@ -241,7 +244,16 @@ func buildQuery(s *gocql.Session, in *caseIn) *gocql.Query {
 	for i, v := range in.vals {
 		args[i] = v
 	}
-	q := s.Query(in.stmt, args...).PageSize(in.psize).Consistency(in.cons).Prefetch(float64(in.pfNum) / float64(in.pfDen))
+	var q *gocql.Query
+	if in.bind {
+		q = s.Bind(in.stmt, func(*gocql.QueryInfo) ([]interface{}, error) { return args, nil })
+	} else {
+		q = s.Query(in.stmt, args...)
+	}
+	if in.retries > 0 {
+		q = q.RetryPolicy(sameHostRetry{in.retries}).Idempotent(true)
+	}
+	q = q.PageSize(in.psize).Consistency(in.cons).Prefetch(float64(in.pfNum) / float64(in.pfDen))
 	if in.noskip {
 		q = q.NoSkipMetadata()
 	}
@@ -256,6 +268,38 @@ func buildQuery(s *gocql.Session, in *caseIn) *gocql.Query {
 		q = q.PageState(in.mstate)
 	}
 	return q
+}
+
+// sameHostRetry retries every failed attempt on the same host, up to n times per query object (each
+// page's query has its own attempt counter: conn.go gives newQry fresh metrics).
+type sameHostRetry struct{ n int }
+
+func (p sameHostRetry) Attempt(q gocql.RetryableQuery) bool { return q.Attempts() <= p.n }
+func (p sameHostRetry) GetRetryType(error) gocql.RetryType  { return gocql.Retry }
+
+// effective rewrites the script the way the executor's retry loop presents it to the paging logic: an error
+// answer that the policy retries is followed by the very same request, exactly like UNPREPARED
+// (Coq: Corr.retried does the same rewriting on the model side).
+func effective(script []reply, n int) []reply {
+	out := make([]reply, 0, len(script))
+	left := n
+	for i, r := range script {
+		switch r.kind {
+		case rErr:
+			if left > 0 {
+				left--
+				out = append(out, reply{kind: rUnprep})
+				continue
+			}
+			return append(out, script[i:]...)
+		case rPage:
+			left = n
+		case rVoid:
+			return append(out, script[i:]...)
+		}
+		out = append(out, r)
+	}
+	return out
 }
 
 func runCase(s *gocql.Session, in *caseIn) (out caseOut) {
@@ -357,11 +401,11 @@ func expect(in *caseIn) oracle {
 	for {
 		o.states = append(o.states, cur)
 		o.hasSt = append(o.hasSt, has)
-		if i >= len(in.script) {
+		if i >= len(in.eff) {
 			o.endErr = eNoReply
 			return o
 		}
-		r := in.script[i]
+		r := in.eff[i]
 		i++
 		switch r.kind {
 		case rUnprep:
@@ -425,7 +469,7 @@ func firstPageRequests(in *caseIn) int { return requestsUpToPage(in, 0) }
 // number of requests needed to obtain served page number `page` (counting UNPREPARED repeats)
 func requestsUpToPage(in *caseIn, page int) int {
 	n, pi := 0, -1
-	for _, r := range in.script {
+	for _, r := range in.eff {
 		n++
 		if r.kind == rPage {
 			pi++
@@ -447,7 +491,7 @@ func requestsForNextPage(in *caseIn, page int) int {
 	n := 0
 	for k := a; ; k++ {
 		n++
-		if k >= len(in.script) || in.script[k].kind != rUnprep {
+		if k >= len(in.eff) || in.eff[k].kind != rUnprep {
 			return n
 		}
 	}
@@ -515,8 +559,8 @@ func caseTerm(in *caseIn, out *caseOut) string {
 	if out.err != -1 {
 		errS = hlib.Some(hlib.Z(int64(out.err)))
 	}
-	return fmt.Sprintf("CIter %d %s %s (%s, %s) %s %s %s %s %s %s", in.consumer, cfg, manual, hlib.Z(in.pfNum), hlib.Z(in.pfDen),
-		hlib.Nat(out.ncalls), hlib.List(script), int32List(out.rows), errS, hlib.List(reqs), zbytes(out.state))
+	return fmt.Sprintf("CIter %d %s %s (%s, %s) %s %s %s %s %s %s %s", in.consumer, cfg, manual, hlib.Z(in.pfNum), hlib.Z(in.pfDen),
+		hlib.Nat(out.ncalls), hlib.Nat(in.retries), hlib.List(script), int32List(out.rows), errS, hlib.List(reqs), zbytes(out.state))
 }
 
 // ---- generators ----------------------------------------------------------------------------------
@@ -547,6 +591,18 @@ func (g *gen) add(in *caseIn) *caseIn {
 	}
 	if in.pfDen == 0 {
 		in.pfDen = 1
+	}
+	if !in.prepared {
+		in.bind = false
+	}
+	if in.ownSess || in.kind == "random-noreply" || in.kind == "empty-script" {
+		in.retries = 0 // a retried timeout / closed connection is the executor's business (C13), not paging's
+	}
+	in.eff = effective(in.script, in.retries)
+	for in.retries > 0 && (len(in.eff) == 0 || in.eff[len(in.eff)-1].kind == rUnprep) && len(in.script) > 0 && in.script[len(in.script)-1].kind == rErr {
+		// the script would run out right after an error that is retried: let the retries fail too instead of timing out
+		in.script = append(in.script, in.script[len(in.script)-1])
+		in.eff = effective(in.script, in.retries)
 	}
 	g.cases = append(g.cases, in)
 	return in
@@ -599,6 +655,10 @@ func (g *gen) randomCfg(in *caseIn) {
 	in.psize = int(r.Pick(1, 2, 3, 10, 50, 100, 5000, 0, -1, 2147483647))
 	in.cons = gocql.Consistency(r.Pick(int64(gocql.One), int64(gocql.Quorum), int64(gocql.LocalQuorum), int64(gocql.All), int64(gocql.Any)))
 	in.noskip = r.Chance(35)
+	in.bind = r.Chance(40)
+	if r.Chance(20) {
+		in.retries = 1 + r.Intn(3)
+	}
 	if r.Chance(15) {
 		in.serial = gocql.SerialConsistency(r.Pick(int64(gocql.Serial), int64(gocql.LocalSerial)))
 	}
@@ -652,7 +712,7 @@ func (g *gen) rowCount() int {
 }
 
 func (g *gen) sprinkleUnprep(s []reply) []reply {
-	if !g.r.Chance(12) {
+	if !g.r.Chance(25) {
 		return s
 	}
 	var t []reply
@@ -693,7 +753,7 @@ func (g *gen) generate(scale int, search bool) {
 							t = reply{kind: rErr, code: errCodes[(np+rp+pfi+cons)%len(errCodes)]}
 						}
 						in := &caseIn{kind: "grid", consumer: cons, prepared: (np+rp+pfi+ti)%3 != 0, psize: rp + 1, cons: gocql.Quorum,
-							noskip: (np+cons+ti)%2 == 0, pfNum: prefetches[pfi][0], pfDen: prefetches[pfi][1], stop: -1, tsflag: true,
+							noskip: (np+cons+ti)%2 == 0, bind: (np+cons+pfi)%2 == 1, pfNum: prefetches[pfi][0], pfDen: prefetches[pfi][1], stop: -1, tsflag: true,
 							sess: (np + rp + cons + ti) % g.nsess}
 						in.script = g.pages(counts, t)
 						g.add(in)
@@ -820,6 +880,57 @@ func (g *gen) generate(scale int, search bool) {
 			g.add(in)
 		}
 	}
+	// (7) re-sent page requests: UNPREPARED, or an error the retry policy retries, placed on a request that
+	// carries a paging state (page j >= 1, or the one page of a manual iteration); Session.Bind and Session.Query
+	n = 150 * scale
+	for i := 0; i < n; i++ {
+		in := &caseIn{kind: "resend", consumer: r.Intn(4)}
+		g.randomCfg(in)
+		in.prepared = !r.Chance(15)
+		in.bind = i%2 == 0
+		in.retries = 0
+		byRetry := i%3 == 2
+		if byRetry {
+			in.retries = 1 + r.Intn(2)
+		}
+		resend := func() []reply {
+			k := 1
+			if r.Chance(25) {
+				k = 2
+			}
+			var xs []reply
+			for ; k > 0; k-- {
+				if byRetry && len(xs) < in.retries {
+					xs = append(xs, reply{kind: rErr, code: errCodes[r.Intn(len(errCodes))]})
+				} else {
+					xs = append(xs, reply{kind: rUnprep})
+				}
+			}
+			return xs
+		}
+		if i%5 == 4 { // manual paging with a caller state
+			in.manual, in.mstate, in.kind = true, g.state(), "resend-manual"
+			in.script = append(resend(), reply{kind: rPage, rows: ids(0, 1+r.Intn(4)), more: r.Chance(60), state: g.state()},
+				reply{kind: rPage, rows: ids(1, 2)})
+		} else {
+			np := 1 + r.Intn(3)
+			counts := make([]int, np)
+			for k := range counts {
+				counts[k] = int(r.Pick(1, 2, 2, 3, 0))
+			}
+			t, _ := g.term(false)
+			base := g.pages(counts, t)
+			j := 1 + r.Intn(np) // the request for answer j carries the state of page j-1
+			in.script = append(append(append([]reply{}, base[:j]...), resend()...), base[j:]...)
+			if r.Chance(20) && j+1 < len(base) {
+				in.script = append(in.script[:len(in.script)-(len(base)-j-1)], append(resend(), base[j+1:]...)...)
+			}
+		}
+		if r.Chance(30) && in.consumer != 3 {
+			in.stop = r.Intn(8)
+		}
+		g.add(in)
+	}
 	// (6) the connection is closed instead of an answer to the request for page j
 	n = 10 + 2*scale
 	for i := 0; i < n; i++ {
@@ -862,7 +973,7 @@ func triggerEmptyState(in *caseIn, o oracle) bool {
 		return false
 	}
 	pi := 0
-	for _, r := range in.script {
+	for _, r := range in.eff {
 		if r.kind == rPage {
 			if pi < len(o.pageLen) && r.more && len(r.state) == 0 {
 				return true
@@ -1002,7 +1113,7 @@ func main() {
 		hist[fmt.Sprintf("consumer%d", in.consumer)]++
 		hist[fmt.Sprintf("requests=%d", min(len(out.reqs), 10))]++
 		input := map[string]interface{}{"case": in.id, "consumer": in.consumer, "stmt": in.stmt, "manual": in.manual, "prefetch": fmt.Sprintf("%d/%d", in.pfNum, in.pfDen),
-			"stop": in.stop, "script": describe(in.script), "rows_seen": len(out.rows), "err": out.errText, "requests": len(out.reqs)}
+			"stop": in.stop, "bind": in.bind, "retries": in.retries, "script": describe(in.script), "rows_seen": len(out.rows), "err": out.errText, "requests": len(out.reqs)}
 		viol := func(kind, finding, detail string) { o.Violate(idx, kind, finding, detail, input) }
 		if out.panicked != "" {
 			viol("panic", "", out.panicked)
@@ -1057,7 +1168,7 @@ func main() {
 		most := len(or.states)
 		least := most
 		if !full {
-			least = expectedRequests(&caseIn{consumer: 1, manual: in.manual, script: in.script, pfNum: 0, pfDen: 1}, or, len(out.rows), out.ncalls)
+			least = expectedRequests(&caseIn{consumer: 1, manual: in.manual, eff: in.eff, pfNum: 0, pfDen: 1}, or, len(out.rows), out.ncalls)
 		}
 		casesMu.Lock()
 		cs := cases[in.id]
@@ -1082,7 +1193,7 @@ func main() {
 		// M5: the exposed page state is the last fetched page's (manual paging: the state to continue with)
 		if in.manual && full && or.endErr == -1 && len(or.more) > 0 && in.consumer != 1 {
 			var st []byte
-			for _, r := range in.script {
+			for _, r := range in.eff {
 				if r.kind == rPage {
 					if r.more {
 						st = r.state
